@@ -24,6 +24,11 @@
 //   tied to the checked model the same way; a fault on the domain is an oracle failure.
 // Stage A: AbacusLegalizer::evaluatePlacement cost arithmetic at 2^22: the returned
 //   distance must equal the 64-bit cost of an independent RowLegalizer twin.
+// Stage D: further flow cases (same oracle as F) on dense designs: unit-grid circuits (row height 1-2, cell areas
+//   1-4, densities up to 100 % and above), standard-cell grids with several bins in both directions, tiny circuits.
+// Stages T/Y, I/J, P/Q: TetrisLegalizer, IncrNetModel and DetailedPlacement driven directly, in-domain (batches,
+//   same values, never a fault) and beyond the domain (one child per case, the checked model predicts the kills).
+// Stage U: Transportation1d::assign on single lines of bins (unit supplies, full lines), tied to Model/Transp1d.
 //
 // The work is spread over J worker processes (cases k = w mod J); workers only write
 // record files, the parent aggregates them in case order, so the result does not
@@ -42,6 +47,7 @@
 #include "place_detailed/incr_net_model.hpp"
 #include "place_detailed/row_legalizer.hpp"
 #include "place_detailed/tetris_legalizer.hpp"
+#include "place_global/transportation_1d.hpp"
 #include "utils/helpers.hpp"
 
 using namespace coloquinte;
@@ -1289,12 +1295,66 @@ static void detSession(const DetInst &t, std::ostream *ops, std::ostream *impl) 
   }
 }
 
+// ------------------------------------------------------------------ stage U : Transportation1d::assign as improveX/YTransport calls it
+// One line of bins: 1-6 sinks (bin centres, capacities), 1-14 sources (cell targets, areas), positions scaled by
+// 1e8 / width as in DensityLegalizer::improveXTransport (up to ~4e14 for a 2^22 offset).  The generator insists on the
+// shapes the flow generator reaches only at high density: unit supplies, total supply == total demand (every bin full
+// after balanceDemand), the last source flush against the end of the last sink.  The Lean model (Model/Transp1d.lean,
+// `assign`) returns `err:indexOutOfRange` instead of reading out of bounds; `transp1d_no_fault` proves it never does.
+struct T1dInst { std::vector<long long> u, v, s, d; };
+static T1dInst genT1d(vh::Rng &g) {
+  T1dInst t;
+  int m = g.range(1, 6), n = g.range(1, 14);
+  long long scale = g.chance(1, 2) ? 1 : (g.chance(1, 2) ? 100000000ll : g.range(1, 400000000000ll));
+  long long base = g.chance(1, 2) ? 0 : g.range(-4194304, 4194304) * (scale > 1000000 ? 100000000ll : 1);
+  for (int j = 0; j < m; ++j) t.v.push_back(base + g.range(0, 40) * scale);
+  for (int i = 0; i < n; ++i) t.u.push_back(base + g.range(-5, 45) * scale);
+  int sm = g.range(0, 3);  // 0 all unit, 1 small, 2 mixed with zeros, 3 large
+  long long total = 0;
+  for (int i = 0; i < n; ++i) {
+    long long a = sm == 0 ? 1 : (sm == 1 ? g.range(1, 4) : (sm == 2 ? g.range(0, 3) : g.range(1, (1ll << 31) - 1)));
+    t.s.push_back(a);
+    total += a;
+  }
+  // demands: a partition of the total supply (full line), or with slack
+  long long slack = g.chance(2, 3) ? 0 : g.range(1, std::max(1ll, total));
+  long long left = total + slack;
+  for (int j = 0; j < m; ++j) {
+    long long c = j + 1 == m ? left : g.range(0, left);
+    if (g.chance(1, 4) && j + 1 < m) c = left / (m - j);
+    t.d.push_back(c);
+    left -= c;
+  }
+  return t;
+}
+static std::string t1dOps(const T1dInst &t) {
+  std::ostringstream os;
+  os << "t1d " << t.u.size() << " " << t.v.size();
+  for (auto x : t.u) os << " " << x;
+  for (auto x : t.v) os << " " << x;
+  for (auto x : t.s) os << " " << x;
+  for (auto x : t.d) os << " " << x;
+  os << "\n";
+  return os.str();
+}
+static void t1dImpl(const T1dInst &t, std::ostream &os) {
+  try {
+    Transportation1d pb(t.u, t.v, t.s, t.d);
+    std::vector<int> a = pb.assign();
+    os << "t1d";
+    for (int k : a) os << " " << k;
+    os << "\n";
+  } catch (const std::runtime_error &) {
+    os << "t1d throw:runtime_error\n";
+  }
+}
+
 // ------------------------------------------------------------------ worker
-struct Plan { long long nFlow, nDense, nM, nX, nS, nA, nT, nY, nI, nJ, nP, nQ; int timeout; };
+struct Plan { long long nFlow, nDense, nM, nX, nS, nA, nT, nY, nI, nJ, nP, nQ, nU; int timeout; };
 static Plan planFor(const vh::Args &a) {
-  if (a.thorough()) return {12000, 20000, 60000, 3000, 3000, 20000, 40000, 3000, 40000, 3000, 40000, 3000, 300};
-  if (a.search()) return {2500, 4000, 20000, 600, 1500, 20000, 10000, 600, 10000, 600, 10000, 600, 120};
-  return {1500, 2500, 20000, 1200, 400, 6000, 10000, 1000, 10000, 1000, 10000, 1000, 120};
+  if (a.thorough()) return {12000, 20000, 60000, 3000, 3000, 20000, 40000, 3000, 40000, 3000, 40000, 3000, 100000, 300};
+  if (a.search()) return {2500, 4000, 20000, 600, 1500, 20000, 10000, 600, 10000, 600, 10000, 600, 20000, 120};
+  return {1500, 2500, 20000, 1200, 400, 6000, 10000, 1000, 10000, 1000, 10000, 1000, 20000, 120};
 }
 static const int MBATCH = 500;
 
@@ -1622,6 +1682,41 @@ static void worker(const vh::Args &a, int w, int J, const Plan &pl, const std::s
     r.counts = std::string("detplace_wild_") + (fate == "ok" ? "no_fault" : "fault_" + fate);
     writeRec(f, r);
   }
+  // stage U: batches of 1-D transportation assignments; a batch that dies is re-run one instance per child to name it
+  long long nUB = (pl.nU + MBATCH - 1) / MBATCH;
+  for (long long bt = w; bt < nUB && stageOn('U'); bt += J) {
+    Rec r; r.k = bt; r.stage = "U"; r.id = "u" + std::to_string(bt);
+    std::ostringstream ops;
+    std::vector<T1dInst> v;
+    for (long long i = bt * MBATCH; i < std::min<long long>(pl.nU, (bt + 1) * MBATCH); ++i) {
+      vh::Rng g = vh::Rng::forCase(a.seed ^ 0x5555, i);
+      v.push_back(genT1d(g));
+      ops << "case u" << i << "\n" << t1dOps(v.back());
+    }
+    std::string output, diag;
+    std::string fate = vh::isolated([&](std::ostream &os) {
+      for (size_t j = 0; j < v.size(); ++j) { os << "case u" << (bt * MBATCH + (long long)j) << "\n"; t1dImpl(v[j], os); }
+    }, output, pl.timeout, &diag);
+    r.fate = fate; r.ops = ops.str(); r.impl = output;
+    r.counts = "transp1d_instances=" + std::to_string(v.size());
+    if (fate != "ok") {
+      r.what = "[transp1d_unit] Transportation1d::assign faulted (" + fate + "): " + summarize(diag);
+      r.input = r.ops;
+      for (size_t j = 0; j < v.size(); ++j) {
+        std::string o2, d2;
+        std::string f2 = vh::isolated([&](std::ostream &os) { t1dImpl(v[j], os); }, o2, pl.timeout, &d2);
+        if (f2 != "ok") {
+          r.what = "[transp1d_unit] Transportation1d(u, v, s, d).assign() — the call DensityLegalizer::improveXTransport makes for a line of bins — "
+                   "ended with " + f2 + " instead of returning: " + summarize(d2);
+          r.input = t1dOps(v[j]);
+          break;
+        }
+      }
+      r.impl = "";
+      r.ops = "";
+    }
+    writeRec(f, r);
+  }
 }
 
 // ------------------------------------------------------------------ replay
@@ -1713,6 +1808,15 @@ static int replay(const vh::Args &a, vh::Out &out) {
     std::string output, diag;
     std::string fate = vh::isolated([&](std::ostream &os) { subImpl(s, os); }, output, 60, &diag);
     if (fate != "ok") out.fail("replay", "computeSubdivisions ended with " + fate + ": " + summarize(diag), in);
+  } else if (first == "t1d") {
+    size_t n = 0, m = 0;
+    is >> n >> m;
+    T1dInst t;
+    auto rd = [&](std::vector<long long> &v, size_t k) { for (size_t i = 0; i < k; ++i) { long long x = 0; is >> x; v.push_back(x); } };
+    rd(t.u, n); rd(t.v, m); rd(t.s, n); rd(t.d, m);
+    std::string output, diag;
+    std::string fate = vh::isolated([&](std::ostream &os) { t1dImpl(t, os); }, output, 60, &diag);
+    if (fate != "ok") out.fail("replay", "Transportation1d::assign ended with " + fate + ": " + summarize(diag), in);
   } else if (first == "abacus") {
     Aba ab;
     std::string op;
@@ -1763,7 +1867,7 @@ int main(int argc, char **argv) {
     for (auto &r : readRecs(p)) recs.push_back(r);
     unlink(p.c_str());
   }
-  static const std::string order = "CFMXSATYIJPQ";
+  static const std::string order = "CFMXSATYIJPQU";
   std::stable_sort(recs.begin(), recs.end(), [](const Rec &x, const Rec &y) {
     size_t sx = order.find(x.stage), sy = order.find(y.stage);
     return sx != sy ? sx < sy : x.k < y.k;
@@ -1778,8 +1882,8 @@ int main(int argc, char **argv) {
       "placeGlobal/legalize/placeDetailed) run in a forked child under ASan+UBSan; failure = child fate other than ok "
       "(exceptions are caught and are allowed); non-trivial = at least one entry point returned normally (the case went "
       "through the algorithms rather than being rejected up front), distinct by canonical text of the case; "
-      "unit cases (row legalizer streams, computeSubdivisions, Abacus cost evaluation) at 2^22 magnitude are counted in "
-      "the distribution";
+      "unit cases (row legalizer / Tetris / IncrNetModel / DetailedPlacement streams, computeSubdivisions, Abacus cost "
+      "evaluation, 1-D transportation lines) at 2^22 magnitude are counted in the distribution";
   std::map<std::string, int> perTag;
   for (auto &r : recs) {
     // counts: "a,b=3,c"
@@ -1792,7 +1896,7 @@ int main(int argc, char **argv) {
     }
     if (r.fate == "skipped") continue;
     if (r.stage == "F" || r.stage == "C") out.evaluations++;
-    else if (r.stage == "M" || r.stage == "A" || r.stage == "T" || r.stage == "I" || r.stage == "P") { /* counted through the distribution */ }
+    else if (r.stage == "M" || r.stage == "A" || r.stage == "T" || r.stage == "I" || r.stage == "P" || r.stage == "U") { /* counted through the distribution */ }
     else out.evaluations++;
     if (r.nontrivialHash) out.nontrivial(r.nontrivialHash);
     if (!r.sample.empty() && (r.k % 97 == 0 || r.fate != "ok")) out.sample(r.sample);
@@ -1819,7 +1923,7 @@ int main(int argc, char **argv) {
     }
     out.notes.push_back(note);
   }
-  out.evaluations += out.dist["rowleg_domain_instances"] + out.dist["abacus_eval_instances"] + out.dist["tetris_domain_instances"] + out.dist["incrnet_domain_instances"] + out.dist["detplace_domain_sessions"];
+  out.evaluations += out.dist["rowleg_domain_instances"] + out.dist["abacus_eval_instances"] + out.dist["tetris_domain_instances"] + out.dist["incrnet_domain_instances"] + out.dist["detplace_domain_sessions"] + out.dist["transp1d_instances"];
   if (workerDied) out.notes.push_back("a worker process died: results are incomplete");
   out.finish();
   return workerDied ? 4 : 0;
